@@ -354,11 +354,6 @@ func (c *Ctx) Reachable(roots []*ssa.Function, extra map[*ssa.Function][]*ssa.Fu
 		for _, g := range extra[f] {
 			push(g)
 		}
-		// closures created by f are considered reachable (they may be called via values VTA resolves
-		// anyway, but deferred/go closures are covered for certain this way)
-		for _, an := range f.AnonFuncs {
-			push(an)
-		}
 	}
 	return seen
 }
